@@ -124,7 +124,36 @@ def doktorov(ctx, rule="C20.doktorov"):
     ctx.floor(rule, 6)
 
 
+def no_capture(ctx, rule="C20.no-capture"):
+    ctx.explain(f"{rule}: the trainable-GBS model classes answer for the parameter vector they are handed: outside "
+                "__init__ no method of VGBS / the cost classes stores a reference to a caller-owned argument in self "
+                "(a cache keyed by the identity of an array the optimiser updates in place returns stale moments).")
+    n = 0
+    for rel in ("apps/train/param.py", "apps/train/cost.py"):
+        for cls in ctx.tree.module(rel).classes.values():
+            for name, f in sorted(cls.methods.items()):
+                if name == "__init__":
+                    continue
+                n += 1
+                params = {p for p in f.pos_params[1:] if p in ("params", "theta", "weights")}
+                bad = None
+                for x in walk_no_nested(f.node):
+                    if isinstance(x, ast.Assign) and any(isinstance(t, ast.Attribute) and dotted(t.value) == "self" for t in x.targets):
+                        v = x.value
+                        if isinstance(v, ast.Name) and v.id in params:
+                            bad = x
+                        if isinstance(v, ast.Tuple) and any(isinstance(e, ast.Name) and e.id in params for e in v.elts):
+                            bad = x
+                ctx.ob(rule, f.site, bad is None, "" if bad is None else
+                       f"`{ast.unparse(bad)[:50]}` keeps a reference to the caller's array: after an in-place update of the "
+                       "parameters the stored key still compares equal and stale results are returned", role="captures-argument",
+                       line=(bad.lineno if bad is not None else f.node.lineno))
+    ctx.require(n >= 10, f"only {n} model methods found")
+    ctx.floor(rule, 10)
+
+
 def rules(ctx):
+    no_capture(ctx)
     hbar(ctx)
     passive(ctx)
     doktorov(ctx)
